@@ -297,6 +297,15 @@ func (p *PX) byteCall(x *ssa.Call, fr *pxFrame, st *pxState) {
 		if buf := p.bufferOf(x.Call.Args[0], fr, st); buf != nil {
 			st.bseq[key] = &ByteSeq{Oct: append([]*Term(nil), buf.Oct...), Open: buf.Open, Pay: buf.Pay}
 		}
+	case "io.ReadFull", "io.ReadAtLeast":
+		// the buffer is overwritten with octets of the stream: unknown values
+		if len(x.Call.Args) >= 2 {
+			if dst := p.byteSeqOf(x.Call.Args[1], fr, st); dst != nil {
+				for i := range dst.Oct {
+					dst.Oct[i] = &Term{K: TLeaf, T: types.Typ[types.Uint8], key: fmt.Sprintf("<in:%s%s#%d>", key, p.iterTag(fr, x, st), i)}
+				}
+			}
+		}
 	case "(encoding/binary.bigEndian).PutUint16", "(binary.bigEndian).PutUint16":
 		p.putUint(x, fr, st, 2)
 	case "(encoding/binary.bigEndian).PutUint32", "(binary.bigEndian).PutUint32":
